@@ -25,6 +25,7 @@ type GenOpts struct {
 	MaxFacts    int
 	NoFloat     bool // avoid fn:avg (float results)
 	NoCollect   bool
+	AggBias     bool // C02: most rules aggregate, several aggregating rules per head
 }
 
 // DrawOpts draws swarm flags from the tape.
@@ -170,6 +171,9 @@ func GenProgram(r *simrt.Run, o GenOpts) *Program {
 		if o.Structured && ar > 0 && r.OneIn(4, "gen.idb.structcol") {
 			cols[ar-1] = []Ty{TListInt, TPairNI}[r.Choose(2, "gen.idb.structty")]
 		}
+		if o.AggBias && ar > 0 && r.Bool("gen.idb.aggbias.int") {
+			cols[ar-1] = TInt
+		}
 		if o.Aggregation && ar > 0 && r.OneIn(4, "gen.idb.aggcol") {
 			at := []Ty{TFloat, TSetInt, TSetName}
 			if o.NoFloat {
@@ -192,6 +196,14 @@ func GenProgram(r *simrt.Run, o GenOpts) *Program {
 	for i := nEDB; i < len(g.p.Preds); i++ {
 		pi := g.p.Preds[i]
 		nr := 1 + r.Choose(3, "gen.nrules")
+		for _, c := range pi.Cols {
+			if c.IsSet() {
+				// a set-valued column is defined by one rule only: two rules
+				// could produce the same set as differently ordered lists
+				// (list collection order is a documented exclusion)
+				nr = 1
+			}
+		}
 		for k := 0; k < nr; k++ {
 			r.Tape.Mark()
 			g.p.Rules = append(g.p.Rules, g.genRule(pi, k))
@@ -213,6 +225,9 @@ func (e *varEnv) fresh(t Ty) string {
 }
 
 func (g *gen) pickVar(env *varEnv, t Ty, label string) (string, bool) {
+	if t.IsSet() {
+		return "", false // set-valued variables never join (order-sensitive equality)
+	}
 	vs := env.byType[t]
 	if len(vs) == 0 {
 		return "", false
@@ -234,7 +249,14 @@ func (g *gen) genRule(h PredInfo, k int) Rule {
 	env := &varEnv{byType: map[Ty][]string{}}
 	rec := g.groupRec[h.Group]
 	// aggregation rule?
-	if o.Aggregation && !rec && len(h.Cols) >= 1 && r.OneIn(3, "gen.rule.agg") {
+	aggOdds := 3
+	if o.AggBias {
+		aggOdds = 1
+		if r.OneIn(4, "gen.rule.aggbias.plain") {
+			aggOdds = 1000
+		}
+	}
+	if o.Aggregation && !rec && len(h.Cols) >= 1 && r.OneIn(aggOdds, "gen.rule.agg") {
 		if rule, ok := g.genAggRule(h, &varEnv{byType: map[Ty][]string{}}); ok {
 			return rule
 		}
@@ -481,7 +503,10 @@ func (g *gen) genAggRule(h PredInfo, env *varEnv) (Rule, bool) {
 			case c < 9:
 				args = append(args, V(env.fresh(t)))
 			default:
-				args = append(args, V("_"))
+				// (no wildcards here: whether an anonymous column counts as part
+				// of a "solution" differs between single- and multi-atom bodies
+				// and the statement does not settle it)
+				args = append(args, C(g.constOf(t)))
 			}
 		}
 		body = append(body, Lit{K: LAtom, Pred: q.Name, Args: args})
